@@ -204,8 +204,11 @@ CLAIMS = {
         text="Row-algebra model of the wide/long CSV writers and readers, the array data frame and the Matrix form. "
              "Proved: slices_preserved_keys (decide over the group-by key lists regenerated from /repo: they contain "
              "the coordinates, all six metadata columns and the detail columns), groupKey_determines_metadata, "
-             "slices_preserved_wide/long, rows_count_wide/long, concrete round trips. The four general round-trip "
-             "statements are OPEN. Correspondence: CSV text parsed with Python's csv module vs the model's rows, "
+             "slices_preserved_wide/long, rows_count_wide/long, fromWide_toWide and fromLong_toLong (cumulative triangles: "
+             "rows grouped by the generated key list recover exactly the cells, scenario-sorted blocks recover sample "
+             "order), fromArrayFrame_toArrayFrame (+ the inferred-resolution form, the D19 statement), "
+             "fromMatrix_toMatrix for triangles on the index grid. Three statements OPEN (the incremental one-row-per-cell "
+             "stream for wide/long, and that the gcd-inferred Matrix index puts a contiguous triangle on its grid). Correspondence: CSV text parsed with Python's csv module vs the model's rows, "
              "from_*_csv(to_*_csv(t)) vs original and model for slices distinguished by any single attribute or "
              "detail, sample order through the scenario column, array-frame round trips over resolutions 1/3/6/12 and "
              "every start month, Matrix round trips incl. quarterly periods evaluated annually and holey triangles.",
@@ -213,11 +216,13 @@ CLAIMS = {
              "layer; size-1/0-d arrays are canonicalised to their scalar as the property states 'numeric values as floats'.",
         tech="Lean 4 theorems over regenerated group-by tables + row-model differential correspondence"),
     "C15": dict(level=TV, ref="§7 C15",
-        text="13 kernel-checked theorems: for cumulative input rightTri_lags_exact_partial, rightTri_metadata_partial, "
-             "rightTri_values_empty_partial, rightTri_basis_partial, rightTri_empty_when_complete_partial, "
-             "rightTri_disjoint_partial (month-aligned), rightDiag_spec_partial; backfill_preserves_observed, "
-             "backfill_added_before_first, backfill_min_lag, backfill_values. 14 statements OPEN (incremental-input "
-             "versions, fill_* statements, day-unit disjointness). Every clause, proved or open, is evaluated by the "
+        text="34 kernel-checked theorems for both bases: rightTri_lags_exact, rightTri_metadata, rightTri_values_empty, "
+             "rightTri_basis, rightTri_empty_when_complete, rightTri_disjoint_of_monotone (any unit and lag list under the "
+             "exact hypothesis LagMonotone, with month and day instances), rightTri_incremental_chain, rightDiag_spec, "
+             "fill_preserves_observed, fill_added_inside_gaps, fill_values, backfill_preserves_observed, "
+             "backfill_added_before_first, backfill_min_lag(_exact), backfill_values, and the Spec bridge for nine of ten "
+             "clauses of the right-triangle/diagonal Spec. One statement OPEN (extensionSpec_model: the remaining Bool "
+             "bridges). Every clause, proved or open, is evaluated by the "
              "Lean Spec (rightTriSpec, rightDiagSpec, fillSpec, backfillSpec) on the implementation's output, and dumps "
              "are compared with the model, for complete / upper-left / ragged / single-period / single-lag triangles, "
              "1-3 slices, both bases, lag lists and units, resolutions, minimum lags incl. negative.",
@@ -260,12 +265,13 @@ CLAIMS = {
         tech="Lean 4 theorems on rank re-imposition / thinning / development models + Spec predicates on "
              "implementation outputs"),
     "C18": dict(level=TV, ref="§7 C18",
-        text="16 kernel-checked theorems: currency_spec (bijection input/output cells, exactly the generated "
+        text="27 kernel-checked theorems: currency_spec (bijection input/output cells, exactly the generated "
              "currency fields times the slice rate, everything else unchanged, target set; both refusals), disagg_sum "
              "and disagg_weights_sum_one (renormalised weights sum to 1 over Q so sub-period values add up), "
-             "policyYear_basis, policyYear_conserves_partial (normalised share rows sum to 1), premium_sums, "
-             "premium_nonneg; five statements OPEN (full policy-year conservation through the model, "
-             "premium_earned_le_written, aggregate-back composition). CURRENCY_FIELDS and the interpolation-field list "
+             "policyYear_basis, policyYear_conserves (full model-level conservation per evaluation date, field and "
+             "component), premium_sums, premium_nonneg, premium_earned_le_written (convolution bound), disagg_conserves, "
+             "disagg_tiling (sub-periods are the closed-form whole-month blocks tiling the period), and the Bool Spec "
+             "bridges; one statement OPEN (aggregate_disagg: composing with C08's window theorems). CURRENCY_FIELDS and the interpolation-field list "
              "are regenerated from /repo each run. Correspondence over four streams (currency, disaggregation, policy "
              "year, premium pattern) with conservation Specs evaluated on the implementation's outputs, incl. "
              "aggregate(disaggregate(t)) = t on the implementation.",
